@@ -34,9 +34,21 @@ MUTATIONS = [
      "\t\t\t\t\t\tif pos.X != blockPosition.X {\n\t\t\t\t\t\t\tnewIndex.Y = 0\n",
      "corner fetched from the next block in x resets the y index"),
     ("C09", "no-final-weld", "modeling/marching/canvas.go",
-     "\t\t\t\t).\n\t\t\t\tWeldByFloat3Attribute(attribute, 3)\n\t\t}\n\t}\n\tpanic(fmt.Errorf(\"canvas did not contain Float1 attribute %s\", attribute))\n}\n\nfunc (d MarchingCanvas) MarchParallel",
-     "\t\t\t\t)\n\t\t}\n\t}\n\tpanic(fmt.Errorf(\"canvas did not contain Float1 attribute %s\", attribute))\n}\n\nfunc (d MarchingCanvas) MarchParallel",
+     "\t\t\treturn marched.\n\t\t\t\tWeldByFloat3Attribute(attribute, 4).\n\t\t\t\tTransform(\n\t\t\t\t\tmeshops.ScaleAttribute3DTransformer{\n\t\t\t\t\t\tAttribute: attribute,\n\t\t\t\t\t\tAmount:    vector3.One[float64]().DivByConstant(d.cubesPerUnit),\n\t\t\t\t\t},\n\t\t\t\t)\n\t\t}\n\t}\n\tpanic(fmt.Errorf(\"canvas did not contain Float1 attribute %s\", attribute))\n}\n\nfunc (d MarchingCanvas) MarchParallel",
+     "\t\t\treturn marched.\n\t\t\t\tTransform(\n\t\t\t\t\tmeshops.ScaleAttribute3DTransformer{\n\t\t\t\t\t\tAttribute: attribute,\n\t\t\t\t\t\tAmount:    vector3.One[float64]().DivByConstant(d.cubesPerUnit),\n\t\t\t\t\t},\n\t\t\t\t)\n\t\t}\n\t}\n\tpanic(fmt.Errorf(\"canvas did not contain Float1 attribute %s\", attribute))\n}\n\nfunc (d MarchingCanvas) MarchParallel",
      "block meshes are not welded together (seams stay open)"),
+    ("C09", "weld-in-world-units", "modeling/marching/canvas.go",
+     "\t\t\treturn marched.\n\t\t\t\tWeldByFloat3Attribute(attribute, 4).\n\t\t\t\tTransform(\n\t\t\t\t\tmeshops.ScaleAttribute3DTransformer{\n\t\t\t\t\t\tAttribute: attribute,\n\t\t\t\t\t\tAmount:    vector3.One[float64]().DivByConstant(d.cubesPerUnit),\n\t\t\t\t\t},\n\t\t\t\t)\n\t\t}\n\t}\n\tpanic(fmt.Errorf(\"canvas did not contain Float1 attribute %s\", attribute))\n}\n\nfunc (d MarchingCanvas) MarchParallel",
+     "\t\t\treturn marched.\n\t\t\t\tTransform(\n\t\t\t\t\tmeshops.ScaleAttribute3DTransformer{\n\t\t\t\t\t\tAttribute: attribute,\n\t\t\t\t\t\tAmount:    vector3.One[float64]().DivByConstant(d.cubesPerUnit),\n\t\t\t\t\t},\n\t\t\t\t).\n\t\t\t\tWeldByFloat3Attribute(attribute, 3)\n\t\t}\n\t}\n\tpanic(fmt.Errorf(\"canvas did not contain Float1 attribute %s\", attribute))\n}\n\nfunc (d MarchingCanvas) MarchParallel",
+     "the final weld done after scaling, to 0.001 world units (the defect repaired by 0769921)"),
+    ("C09", "march-empty-panics", "modeling/marching/canvas.go",
+     "\t\t\tmarched := d.marchFloat1(cutoff, sectionAttribute, section)\n\t\t\tif marched.PrimitiveCount() == 0 {\n\t\t\t\treturn marched\n\t\t\t}\n\t\t\t// Weld",
+     "\t\t\tmarched := d.marchFloat1(cutoff, sectionAttribute, section).Transform(meshops.ScaleAttribute3DTransformer{Attribute: attribute, Amount: vector3.One[float64]()})\n\t\t\t// Weld",
+     "the sequential marcher transforms an empty result (the defect repaired by c741ba1)"),
+    ("C09", "march-on-attribute-scales-position", "modeling/marching/canvas.go",
+     "\t\t\treturn marched.\n\t\t\t\tWeldByFloat3Attribute(attribute, 4).\n\t\t\t\tTransform(\n\t\t\t\t\tmeshops.ScaleAttribute3DTransformer{\n\t\t\t\t\t\tAttribute: attribute,\n\t\t\t\t\t\tAmount:    vector3.One[float64]().DivByConstant(d.cubesPerUnit),\n\t\t\t\t\t},\n\t\t\t\t)\n\t\t}\n\t}\n\tpanic(fmt.Errorf(\"canvas did not contain Float1 attribute %s\", attribute))\n}\n\nfunc (d MarchingCanvas) MarchParallel",
+     "\t\t\treturn marched.\n\t\t\t\tWeldByFloat3Attribute(attribute, 4).\n\t\t\t\tTransform(\n\t\t\t\t\tmeshops.ScaleAttribute3DTransformer{\n\t\t\t\t\t\tAmount:    vector3.One[float64]().DivByConstant(d.cubesPerUnit),\n\t\t\t\t\t},\n\t\t\t\t)\n\t\t}\n\t}\n\tpanic(fmt.Errorf(\"canvas did not contain Float1 attribute %s\", attribute))\n}\n\nfunc (d MarchingCanvas) MarchParallel",
+     "the scale step addresses Position instead of the marched attribute (the defect repaired by f7c1cf0)"),
     ("C09", "winding-flip", "modeling/marching/canvas.go",
      "\t\t\t\t\t\tLookupOrAdd(marchingWorkingData, v2),\n\t\t\t\t\t\tLookupOrAdd(marchingWorkingData, v3),",
      "\t\t\t\t\t\tLookupOrAdd(marchingWorkingData, v3),\n\t\t\t\t\t\tLookupOrAdd(marchingWorkingData, v2),",
